@@ -11,11 +11,12 @@ def run(tier):
     # M: every spelling of every INVALID line of the bounded family is rejected (AgreesInv)
     # 20: value arguments: a second modification of a variable protected by the original-value check
     # 24: command-mode argument with a length check on the whole text
+    # 26: differ over three arguments (equal values on the first and the third, the second unused)
     if tier == "quick":
-        cfgs, beh = model_behaviours(c, tier, cfgsel=[2, 3, 5, 6, 8, 20, 24])
+        cfgs, beh = model_behaviours(c, tier, cfgsel=[2, 3, 5, 6, 8, 20, 24, 26])
     else:
         cfgs, beh = model_behaviours(c, tier, cfgsel=[3, 5, 8], maxuses=3)
-        cfgs2, beh2 = model_behaviours(c, tier, cfgsel=[2, 6, 20, 24], maxuses=2)
+        cfgs2, beh2 = model_behaviours(c, tier, cfgsel=[2, 6, 20, 24, 26], maxuses=2)
         beh += beh2
     script = os.path.join(c.wd, "replay.ndjson")
     n = behaviours_script(cfgs, beh, script, select=lambda b: not b["valid"])
@@ -36,6 +37,27 @@ def run(tier):
             for kind, words in arggen.mutations(g, cfg, line):
                 kinds[kind] += 1
                 acts.append(eval_action(words, tag={"k": "mut", "m": kind}))
+        blocks.append((cfg, acts))
+    # T1b: differ over three arguments of one type: every pair equal in turn, also with the third argument not used
+    for _ in range(40 if tier == "quick" else 1000):
+        kind = g.r.choice(["int", "int", "str"])
+        cfg = g.cfg(nargs=g.r.randint(3, 5), kinds=[kind], constraints=False, allow_pos=False)
+        for a in cfg["args"]:
+            a["mand"] = False; a["checks"] = []; a["formats"] = []
+        sel = sorted(g.r.sample(range(1, len(cfg["args"]) + 1), 3))
+        cfg["hcons"].append({"k": "differ", "args": sel, "cspell": g.r.choice([0, 0, 1, 2]), "grp": 0})
+        vals = ["1", "2", "3"] if kind == "int" else ["x", "y", "zz"]
+        acts = []
+        for x, y in ((0, 1), (0, 2), (1, 2)):
+            for third in (True, False):
+                z = 3 - x - y
+                order = [x, y] + ([z] if third else [])
+                g.r.shuffle(order)
+                line = [[sel[k], [vals[0] if k in (x, y) else vals[1]]] for k in order]
+                kinds["differ3_equal" if third else "differ3_equal_gap"] += 1
+                acts.append(eval_action(g.spell_line(cfg, line), tag={"k": "mut", "m": "differ3"}))
+        line = [[sel[k], [vals[k]]] for k in g.r.sample(range(3), 3)]
+        acts.append(eval_action(g.spell_line(cfg, line), tag={"k": "line", "line": line_json(line)}))
         blocks.append((cfg, acts))
     # T2: rules broken inside a sub-group (bad value, argument used again on the second visit, excluded argument, missing value,
     # unknown key, a sub-group key used outside) and the refusals of command-mode arguments
